@@ -29,3 +29,43 @@ Print Assumptions C15_every_iteration_respects_bound.
 Theorem C15_initial_path_ok : forall c, wf_path (initial_path c) /\ c15_inv (initial_path c).
 Proof. exact initial_path_ok. Qed.
 Print Assumptions C15_initial_path_ok.
+
+Require Import LV.PathPreempt.
+
+(* Preemptions counted independently of the stored counter (PathPreempt.v) *)
+(* INDEPENDENT READING: the number of context switches away from a still-runnable thread, counted from the recorded schedule entries alone, never exceeds the stored preemption counter *)
+Theorem C15_switches_le_preemptions :
+  forall b : list entry,
+       pre_inv b -> forall s : Path.schedule, last_sched b = Some s -> switches b <= preemptions s.
+Proof. exact switches_le_preemptions. Qed.
+Print Assumptions C15_switches_le_preemptions.
+
+(* hence never exceeds the bound *)
+Theorem C15_switches_le_bound :
+  forall (p : path) (bd : nat),
+       pre_inv (branches p) -> c15_inv p -> bound p = Some bd -> switches (branches p) <= bd.
+Proof. exact switches_le_bound. Qed.
+Print Assumptions C15_switches_le_bound.
+
+(* branch_thread keeps the linking invariant for every seed in which a switch away from the running thread happens only when that thread is Disabled or Yield *)
+Theorem C15_branch_thread_keeps_link :
+  forall (p : path) (seed : list tstat) (p' : path) (t : option nat),
+       pre_inv (branches p) ->
+       seed_ok (prev_active (branches p)) seed ->
+       branch_thread p seed = POk (p', t) -> pre_inv (branches p').
+Proof. exact branch_thread_pre_inv. Qed.
+Print Assumptions C15_branch_thread_keeps_link.
+
+(* step keeps it *)
+Theorem C15_step_keeps_link :
+  forall p p' : path, step p = Some p' -> pre_inv (branches p) -> pre_inv (branches p').
+Proof. exact step_pre_inv. Qed.
+Print Assumptions C15_step_keeps_link.
+
+(* every stack reachable through the Path API with such seeds has at most n counted switches *)
+Theorem C15_reachable_switches_le_bound :
+  forall (mb n : nat) (ex : bool) (p : path),
+       reach mb (Some n) ex p -> switches (branches p) <= n.
+Proof. exact reach_switches_le_bound. Qed.
+Print Assumptions C15_reachable_switches_le_bound.
+
